@@ -22,7 +22,9 @@ func init() {
 			"C12.5 schedule constants located by use: the retransmission counter is compared with 7, incremented by one per timer firing and handed to the callback; the interval is doubled unconditionally and capped by a comparison with, and assignment of, 1.6 s; " +
 			"C12.6 Transaction.Close is called only from CloseAndDeleteAll, which is called only from Client.Close with mutexTrMap held; " +
 			"C12.7 a response whose transaction is not in the table is ignored: handleSTUNMessage returns nil on the not-found edge (the Listen loop ends on any error); " +
-			"C12.8 the message handed to the waiter is allocated for (or exclusively taken from a pool by) that packet, never remembered elsewhere, and not put back into a pool on any path after a hand-over that WriteResult reported as accepted (else the caller reads another transaction's response).",
+			"C12.8 the message handed to the waiter is allocated for (or exclusively taken from a pool by) that packet, never remembered elsewhere, and not put back into a pool on any path after a hand-over that WriteResult reported as accepted (else the caller reads another transaction's response); " +
+			"C12.9 no receive on the C channel of a timer made by time.AfterFunc (it is nil: the receive blocks for ever, with the transaction's locks held); " +
+			"C12.10 the retransmission timer is armed only after the first transmission was written successfully: a callback that can fire while PerformTransaction may still leave through its write-error path completes a transaction nobody is waiting on (WriteResult blocks on the unbuffered result channel with the table lock held — PerformTransaction, Close and every other transaction hang).",
 		NotCovered: "timing, loss/duplication schedules and 'never hangs' beyond these pairing rules; the scheduler.",
 		Run:        runC12,
 	})
@@ -205,6 +207,7 @@ func runC12(c *Ctx) {
 		c.Anchor("C12.3", "onRtxTimeout")
 		type st struct {
 			find                *ssa.Call
+			write               *ssa.Call
 			del, res, arm, sent bool
 		}
 		bad := ""
@@ -246,6 +249,9 @@ func runC12(c *Ctx) {
 				s.arm = true
 			case ci.Common().IsInvoke() && ci.Common().Method.Name() == "WriteTo":
 				s.sent = true
+				if call, isCall := in.(*ssa.Call); isCall {
+					s.write = call
+				}
 			}
 			return s
 		}
@@ -272,10 +278,20 @@ func runC12(c *Ctx) {
 			if s.find != nil && knownSameAsFind(w, env, s.find, nil) == -1 {
 				notFound = true
 			}
+			// a retransmission whose write failed ends the transaction: it is not re-armed
+			if s.write != nil && s.arm && s.write.Referrers() != nil {
+				for _, r := range *s.write.Referrers() {
+					if ex, ok := r.(*ssa.Extract); ok && ex.Type().String() == "error" {
+						if known, isNil := env.knownNil(ex); known && !isNil {
+							bad = fmt.Sprintf("on the path to the return at %s the retransmission's WriteTo failed and the timer is re-armed all the same: a socket write error no longer ends the transaction with an error (it is retried until the schedule runs out, or for ever on a dead socket's behalf)", w.instrPos(x))
+						}
+					}
+				}
+			}
 			okA := notFound && !s.del && !s.res && !s.arm
 			okB := !notFound && s.del && s.res && !s.arm
 			okC := !notFound && s.sent && s.arm && !s.del && !s.res
-			if !(okA || okB || okC) {
+			if !(okA || okB || okC) && bad == "" {
 				bad = fmt.Sprintf("the return at %s ends in state {deleted:%v completed:%v re-armed:%v retransmitted:%v notFound:%v}: the transaction neither terminates nor continues cleanly", w.instrPos(x), s.del, s.res, s.arm, s.sent, notFound)
 			}
 		}
@@ -734,6 +750,8 @@ func runC12(c *Ctx) {
 	// ---- C12.7
 	ruleLateResponsesIgnored(c, "C12.7")
 	ruleResultOwnedByWaiter(c, "C12.8")
+	ruleNoReceiveOnAfterFuncTimer(c, "C12.9")
+	ruleArmAfterFirstWrite(c, "C12.10")
 }
 
 func ruleLateResponsesIgnored(c *Ctx, rule string) {
@@ -1152,4 +1170,122 @@ func knownSameAsFind(w *World, env *pathEnv, fc *ssa.Call, v ssa.Value) int {
 		return -1
 	}
 	return 0
+}
+
+// ruleNoReceiveOnAfterFuncTimer (C12.9, =C14.10): the stop-and-drain idiom
+// `if !t.Stop() { <-t.C }` belongs to timers made by time.NewTimer. A timer made by
+// time.AfterFunc has a nil C: the receive blocks for ever — here inside the retransmission
+// callback, with Transaction.mutex and Client.mutexTrMap held, so the first retransmission
+// wedges the client's inbound path and every refresh after it.
+func ruleNoReceiveOnAfterFuncTimer(c *Ctx, rule string) {
+	w := c.W
+	c.Rule(rule, "no receive (statement or select case) on the C field of a *time.Timer held in a struct field that is ever assigned the result of time.AfterFunc", 0)
+	afterFunc := timeAfterFunc(w)
+	// fields assigned an AfterFunc result
+	afFields := map[*types.Var]bool{}
+	for _, fn := range w.ModFns {
+		w.eachInstr(fn, func(in ssa.Instruction) {
+			st, ok := in.(*ssa.Store)
+			if !ok {
+				return
+			}
+			fa, ok := st.Addr.(*ssa.FieldAddr)
+			if !ok {
+				return
+			}
+			if call, _ := callOf(w.resolveLoad(st.Val)); call != nil && call.Call.StaticCallee() == afterFunc {
+				afFields[fieldOf(fa)] = true
+			}
+		})
+	}
+	n := 0
+	timerField := func(ch ssa.Value) *types.Var {
+		// ch = *(&t.C) with t = load of a struct field of type *time.Timer
+		base, f, ok := fieldLoad(stripIface(ch))
+		if !ok || f.Name() != "C" || f.Pkg() == nil || f.Pkg().Path() != "time" {
+			return nil
+		}
+		_, tf, ok := fieldLoad(stripIface(w.resolveLoad(base)))
+		if !ok {
+			return nil
+		}
+		return tf
+	}
+	for _, fn := range w.ModFns {
+		w.eachInstr(fn, func(in ssa.Instruction) {
+			var chans []ssa.Value
+			switch x := in.(type) {
+			case *ssa.UnOp:
+				if x.Op == token.ARROW {
+					chans = append(chans, x.X)
+				}
+			case *ssa.Select:
+				for _, st := range x.States {
+					if st.Dir == types.RecvOnly {
+						chans = append(chans, st.Chan)
+					}
+				}
+			}
+			for _, ch := range chans {
+				tf := timerField(ch)
+				if tf == nil {
+					continue
+				}
+				n++
+				c.Anchor(rule, fname(fn))
+				if afFields[tf] {
+					c.Bad(rule, fname(fn), "receive on "+tf.Name()+".C", w.instrPos(in), "the timer in field "+tf.Name()+" is made by time.AfterFunc, its C is nil: this receive blocks for ever (the drain idiom is for time.NewTimer timers) — with the locks held here, the first retransmission stalls the inbound path and every later refresh")
+				} else {
+					c.OK(rule, fname(fn), "receive on "+tf.Name()+".C", w.instrPos(in), "a NewTimer timer")
+				}
+			}
+		})
+	}
+	if n == 0 {
+		c.Triv(rule, "-", "scan", "-", fmt.Sprintf("no receive on a timer field's C (%d fields hold AfterFunc timers)", len(afFields)))
+	}
+}
+
+// ruleArmAfterFirstWrite (C12.10): Timer.Stop on an AfterFunc timer neither cancels nor waits
+// for a callback that has already started. If the timer is armed BEFORE the first write, a
+// write that stalls longer than the RTO and then fails races the callback: onRtxTimeout holds
+// Client.mutexTrMap, its own write fails, it deletes the entry and blocks in WriteResult on the
+// unbuffered channel — PerformTransaction is on its error path waiting for that very lock and
+// never receives. So the arming call must lie on the success edge of the first WriteTo.
+func ruleArmAfterFirstWrite(c *Ctx, rule string) {
+	w := c.W
+	c.Rule(rule, "in PerformTransaction (helpers included) every call of Transaction.StartRtxTimer is dominated by the err == nil edge of the socket WriteTo of the request", 1)
+	pt := w.Func("turn", "Client", "PerformTransaction")
+	start := w.Func("client", "Transaction", "StartRtxTimer")
+	c.Anchor(rule, "PerformTransaction")
+	n := 0
+	bad := ""
+	for _, fn := range w.helpersOf(pt) {
+		w.eachInstr(fn, func(in ssa.Instruction) {
+			call, ok := in.(*ssa.Call)
+			if !ok || call.Call.StaticCallee() != start {
+				return
+			}
+			n++
+			okEdge := false
+			for _, f := range w.factsAt(in) {
+				if v, isNil, isNF := nilFact(f); isNF && isNil {
+					if wc, idx := callOf(v); wc != nil && idx >= 0 && wc.Call.IsInvoke() && wc.Call.Method.Name() == "WriteTo" {
+						okEdge = true
+					}
+				}
+			}
+			if !okEdge {
+				bad = w.instrPos(in)
+			}
+		})
+	}
+	switch {
+	case n == 0:
+		c.Bad(rule, fname(pt), "arm", w.pos(pt.Pos()), "PerformTransaction no longer arms the retransmission timer: anchor gone")
+	case bad != "":
+		c.Bad(rule, fname(pt), "arm", bad, "the retransmission timer is armed without the first write having succeeded: if that write stalls past the RTO and fails, the callback already running deletes the transaction and blocks in WriteResult (nobody receives) with Client.mutexTrMap held, while PerformTransaction waits for that lock on its error path — the transaction, Close and the whole client hang")
+	default:
+		c.OK(rule, fname(pt), "arm", w.pos(pt.Pos()), fmt.Sprintf("%d arming call(s), each on the success edge of the first WriteTo", n))
+	}
 }
